@@ -508,6 +508,39 @@ def rule_a5(chk: Check) -> None:
     chk.ob("A5", "directory without trailing slash is matched as the directory", okd)
 
 
+def _expand_simple_calls(chk: Check, fi, expr: ast.AST, depth: int = 0) -> ast.AST:
+    """Replace calls of same-module helpers that consist of a single
+    `return <expression>` by that expression (parameters substituted), so that
+    a predicate extracted into a helper reads like the inline predicate."""
+    import copy
+
+    if depth > 3:
+        return expr
+
+    class T(ast.NodeTransformer):
+        def visit_Call(self, n):  # noqa: N802
+            self.generic_visit(n)
+            d = dotted(n.func)
+            callee = fi.module.functions.get(d) if d and "." not in d else None
+            if callee is None or callee.cls is not None:
+                return n
+            body = [st for st in callee.node.body if not (isinstance(st, ast.Expr) and isinstance(st.value, ast.Constant))]
+            if len(body) != 1 or not isinstance(body[0], ast.Return) or body[0].value is None:
+                return n
+            params = [a.arg for a in callee.node.args.args]
+            if len(n.args) != len(params) or n.keywords:
+                return n
+            sub = dict(zip(params, n.args))
+
+            class S(ast.NodeTransformer):
+                def visit_Name(self, m):  # noqa: N802
+                    return copy.deepcopy(sub[m.id]) if m.id in sub else m
+
+            return _expand_simple_calls(chk, fi, S().visit(copy.deepcopy(body[0].value)), depth + 1)
+
+    return ast.fix_missing_locations(T().visit(copy.deepcopy(expr)))
+
+
 def rule_a7(chk: Check) -> None:
     chk.rule("A7", "client certificates are requested (PyOpenSSL backend selected) whenever a rule requires a certificate or has an allow-list")
     from ..cfg import Builder, inline_local
@@ -524,6 +557,7 @@ def rule_a7(chk: Check) -> None:
     for _dn, le in leaves:
         if isinstance(le, _Sel):
             continue
+        le = _expand_simple_calls(chk, fi, le)
         txt = norm(le)
         gens = [x for x in walk(le) if isinstance(x, ast.GeneratorExp)]
         for ge in gens:
